@@ -8,6 +8,7 @@ import Sqfs.Spec.Quote
 
   split <hexline>                                   → `ok <n> <tok>...` | `err quote` | `err esc`
   splitsep <hexsep> <hexline>                       → the same with another separator set (sort files use ",")
+  possep <hexsep> <hexline>                         → `pos` with another separator set
   esc <cur|fix> <hex>                               → `ok <hex>` | `err newline`      (`print_escaped` alone)
   dev <devno>                                       → `<major> <minor> <makedev(major, minor)>`   (glibc macros)
   mkdev <major> <minor>                             → `<makedev(major, minor)>`
@@ -114,6 +115,13 @@ def step (line : String) : String :=
   | ["splitsep", hs, h] => match fromHex hs, fromHex h with
     | some sep, some s => match splitLine sep s with
       | .ok toks => s!"ok {toks.length}" ++ String.join (toks.map (fun t => " " ++ toHexTok t))
+      | .error e => "err " ++ showSplitErr e
+    | _, _ => "bad-op"
+  | ["possep", hs, h] => match fromHex hs, fromHex h with
+    | some sep, some s =>
+      let s' := skipSep sep s
+      match splitPos sep s.length s' 0 (s.length - s'.length) with
+      | .ok l => "ok" ++ String.join (l.map (fun p => s!" {p.1}:{p.2}"))
       | .error e => "err " ++ showSplitErr e
     | _, _ => "bad-op"
   | ["esc", which, h] => match fromHex h with
